@@ -49,11 +49,32 @@ def prepare(run, cid, tier):
         base_env.update({"VERIF_TIER": tier, "VERIF_ROOT": O, "VERIF_KNOWN": os.path.join(V, "known_findings.json"),
                          "VERIF_REPO": R, "VERIF_C15_REFDIR": scratch})
         base_env.setdefault("VERIF_SEED", "0")
+        base_env["VERIF_KEEP_REPLAYS"] = "1"  # several processes report into one replay directory; it is cleared here
+        fam = ""
+        if replay:
+            try:
+                fam = json.load(open(replay)).get("family", "")
+            except Exception:
+                fam = ""
+        else:
+            subprocess.run(["rm", "-rf", os.path.join(O, "replays", cid)])
         outputs = []
         rcs = []
         saw_violation = False
         if replay:
             base_env["VERIF_REPLAY"] = os.path.abspath(replay)
+        if replay and fam == "argument-histories":
+            bina, bt = run.build(cid, suffix="-args", pkg="cmd/benchstat")
+            pr = subprocess.run([bina, "-test.run", "^TestVerifC15$", "-test.timeout", "0"], cwd=scratch, env=base_env,
+                                stdout=subprocess.PIPE, stderr=subprocess.STDOUT, text=True)
+            sys.stdout.write(pr.stdout)
+            return finish([pr.returncode], [pr.stdout], cid, t0)
+        if replay and fam not in ("schedules", "scheduler-selftest", ""):
+            binr, bt = build_tags(run, cid, "verif", None, "-race", race=True)
+            pr = subprocess.run([binr, "-test.run", "^TestVerifC15$", "-test.timeout", "0"], cwd=scratch, env=base_env,
+                                stdout=subprocess.PIPE, stderr=subprocess.STDOUT, text=True)
+            sys.stdout.write(pr.stdout)
+            return finish([pr.returncode], [pr.stdout], cid, t0)
         # 2. controlled pass
         if refusal is None:
             run.CHECKS[cid]["tags"] = "verif,verifsched"
@@ -92,6 +113,16 @@ def prepare(run, cid, tier):
             print("  the free-running -race pass reported a data race")
             outputs.append(f"VIOLATION property={cid} replay={rp}")
             rcs.append(1)
+        # 4. argument histories on the real entry point (package cmd/benchstat): one process, many runs
+        bina, bt = run.build(cid, suffix="-args", pkg="cmd/benchstat")
+        e = dict(base_env)
+        e["VERIF_EVIDENCE"] = os.path.join(scratch, "part-args.json")
+        e["VERIF_KEEP_REPLAYS"] = "1"
+        pr = subprocess.run([bina, "-test.run", "^TestVerifC15$", "-test.timeout", "0"], cwd=scratch, env=e,
+                            stdout=subprocess.PIPE, stderr=subprocess.STDOUT, text=True)
+        sys.stdout.write(pr.stdout)
+        rcs.append(pr.returncode)
+        outputs.append(pr.stdout)
         run.merge_parts(cid, tier, scratch, time.time() - t0, refusal=refusal, exhaustive_family="schedules")
         return finish(rcs, outputs, cid, t0)
     return runner
